@@ -62,7 +62,9 @@ BaseBad(B) ==
   \cup (IF ~WideVout(B.S) /\ Bad_SemHtlc(B.S, HtxSeq(B), B.sem) THEN {"semantic_htlc_signatures"} ELSE {})
   \* the same request again: whatever it returns must again be for the canonical transaction
   \cup (IF B.sem2.ok /\ ~B.sem2.canon THEN {"semantic_retry_signature_target"} ELSE {})
-BaseExpected(B) == IF SetupTag(B.S, SW) # "ok" THEN "nosetup" ELSE StepSem(B.S, B.C, RangeOf(B.canon.outs), SW).tag
+BaseExpected(B) == IF SetupTag(B.S, SW) # "ok" THEN "nosetup"
+                   ELSE IF ~B.setup_ok THEN "setup_channel accepts"
+                   ELSE StepSem(B.S, B.C, RangeOf(B.canon.outs), SW).tag
 
 \* raw requests
 SemOk(B) == IF B.hist = "retry" THEN B.sem2.ok ELSE B.sem.ok
@@ -150,6 +152,9 @@ Report ==
                             LET t == SetToSeq(DivKinds)[k] IN
                             [expected |-> t[1], real |-> t[2],
                              n |-> Cardinality({j \in Divergent : <<j.tag, Log[j.i].resp.tag>> = t})]],
+    base_divergence_kinds |-> LET T == {<<BaseExpected(Log[i]), Log[i].sem.tag>> : i \in DivergentBase} IN
+                     [k \in DOMAIN SetToSeq(T) |-> [expected |-> SetToSeq(T)[k][1], real |-> SetToSeq(T)[k][2],
+                         n |-> Cardinality({i \in DivergentBase : <<BaseExpected(Log[i]), Log[i].sem.tag>> = SetToSeq(T)[k]})]],
     divergences  |-> [k \in DOMAIN First(Divergent, 12) |-> Describe(First(Divergent, 12)[k])],
     base_divergences |-> [k \in DOMAIN First(DivergentBase, 12) |-> DescribeBase(First(DivergentBase, 12)[k])],
     nstricter    |-> Cardinality(Stricter),
